@@ -86,7 +86,7 @@ def g_graphql(r):
         v = {"query": r.choice([1, None, ["\n"], {"\n": 1}])}
     else:
         v = [{"query": 1}, 5]
-    return json.dumps(v, ensure_ascii=r.random() < 0.5).encode(), "application/json", "graphql", "graphql"
+    return json.dumps(v, ensure_ascii=r.random() < 0.5).encode("utf-8", "surrogatepass"), "application/json", "graphql", "graphql"
 
 
 def g_xml(r):
